@@ -199,7 +199,7 @@ static void do_lf(const vector<string>& t) {
     .li("x", nm(x)).li("y", nm(y)).li("z", nm(z)).li("M", mq(M)).b("mex", mexact(M))
     .b("same", same(x, x2) && same(y, y2) && same(z, z2))
     .b("org", L.LatitudeOrigin() == double(lat0) && L.HeightOrigin() == double(h0)
-              && remainder(L.LongitudeOrigin() - double(lon0), 360.0) == 0 && fabs(L.LongitudeOrigin()) <= 180);
+              && remainder(L.LongitudeOrigin() - double(lon0), 360.0) == 0);
   r.emit();
 }
 static void do_lr(const vector<string>& t) {
@@ -355,7 +355,7 @@ static void rec_lc(int fi, double lat0, double lon0, double h0, double lat, doub
     .i("mrel", rel(w)).i("mrev", rel(wr)).i("mort", rel(fmaxl(mat_orth(M), mat_orth(Mr))))
     .i("mdet", rel(fmaxl(fabsl(mat_det(M) - 1), fabsl(mat_det(Mr) - 1))))
     .b("msame", same(x, x2) && same(y, y2) && same(z, z2) && same(lat1, lat4) && same(lon1, lon4) && same(h1, h4))
-    .b("org", same(L.LatitudeOrigin(), lat0) && same(L.HeightOrigin(), h0) && fabs(L.LongitudeOrigin()) <= 180
+    .b("org", same(L.LatitudeOrigin(), lat0) && same(L.HeightOrigin(), h0)
               && remainder(L.LongitudeOrigin() - lon0, 360.0) == 0);
   r.emit();
 }
